@@ -61,7 +61,8 @@ theorem fromDict_toDict_iff_pickups_fixed (env : Env ν) (p : LensRec ν) (h : W
       rw [hss]
   · exact fromDict_toDict env p h a hap hi hc
 
-/-- hypotheses of `fromDict_toDict` are satisfiable (a lens without pickups is trivially a fixed point) -/
+/-- hypotheses of `fromDict_toDict` are satisfiable (a lens without pickups is trivially a fixed point);
+a concrete lens *with* a pickup: `demo_round_trip` at the end of the file -/
 theorem fromDict_toDict_no_pickups (env : Env ν) (p : LensRec ν) (h : Wf env p) (a : SysAp ν)
     (hap : p.aperture = some a) (hi : ∀ s ∈ p.surfaces, s.isImage = false) (hc : PlanesClean p)
     (hpk : p.pickups = []) : fromDict_code env (toDict_code p) = .ok p :=
@@ -91,7 +92,11 @@ theorem toDict_fromDict_code (env : Env ν) (p : LensRec ν) (h : Wf env p) (a :
   simp only [map_ok', toDict_code, toDictWith_reloaded]
 
 /-- Corollary (`reload_traces_identically`): whatever is computed from the prescription — every ray record,
-every paraxial quantity of the models of C02/C04 — is the same for the reloaded lens. -/
+every paraxial quantity of the models of C02/C04 — is the same for the reloaded lens.
+(Logically this is only congruence: `fromDict_toDict` gives `q = p`.  The content of the clause "traces
+every ray identically" is that the record `LensRec` holds everything the tracer reads; that is the
+harness's comparison of traced rays, not a theorem.  The JSON *file* layer — `json.dump`/`json.load` of
+numbers, `Infinity`, int versus float — is modelled only by `jsonOk`.) -/
 theorem reload_equal_prescription {β : Type} (observe : LensRec ν → β) (env : Env ν) (p q : LensRec ν)
     (h : Wf env p) (a : SysAp ν) (hap : p.aperture = some a) (hi : ∀ s ∈ p.surfaces, s.isImage = false)
     (hc : PlanesClean p) (hpk : applyPickups true p.surfaces p.pickups = .ok p.surfaces)
@@ -312,5 +317,82 @@ theorem asphere_ndarray_breaks_json (p : LensRec ν) (cs : CsRec ν) (r k t m : 
   rcases h with h | ⟨pre, st, ap, co, b, refl, h⟩
   · exact ⟨_, h, by simp [SurfRec.jsonableWith, SurfRec.geom, GeomRec.jsonable, CoefRep.isList]⟩
   · exact ⟨_, h, by simp [SurfRec.jsonableWith, GeomRec.jsonable, CoefRep.isList]⟩
+
+/-! ## non-vacuity: a realistic lens that satisfies every hypothesis of the positive theorems -/
+
+/-- catalogue oracle that knows one glass -/
+def demoEnv : Env Int :=
+  ⟨fun name _ _ _ _ => if name = "N-BK7" then .ok "glass/schott/N-BK7.yml" else .error "no match"⟩
+
+def demoGlass : MatRec Int := .material "glass/schott/N-BK7.yml" "N-BK7" none true none none
+
+/-- a singlet: object plane, spherical front surface (stop, radial aperture, simple coating), even-asphere
+back surface (Lambertian scatter) whose radius picks up −1 × the front radius, image plane; `EPD`
+aperture, two field points, three wavelengths (second primary), one pickup, one solve -/
+def demoLens : LensRec Int :=
+  { aperture := some ⟨.EPD, 10, false⟩
+    surfaces :=
+      [.object (.plane (.root ⟨0, 0, .scalar (-100), 0, 0, 0⟩) none) (.ideal 1 0),
+       .standard (.standard (.root ⟨0, 0, .scalar 0, 0, 0, 0⟩) 50 0) (.ideal 1 0) demoGlass true
+         (some (.radial 10 0)) (some (.simple 1 0)) none false,
+       .standard (.evenAsphere (.root ⟨0, 0, .scalar 5, 0, 0, 0⟩) (-50) 0 0 100 (.list [0, 1])) demoGlass
+         (.ideal 1 0) false none none (some .lambertian) false,
+       .standard (.plane (.root ⟨0, 0, .scalar 95, 0, 0, 0⟩) none) (.ideal 1 0) (.ideal 1 0) false none none
+         none false]
+    fields := [⟨some "angle", 0, 0, 0, 0⟩, ⟨some "angle", 0, 7, 0, 0⟩]
+    fgTelecentric := false
+    fieldType := some "angle"
+    objTelecentric := false
+    waves := [⟨486, false, .nm⟩, ⟨588, true, .nm⟩, ⟨656, false, .nm⟩]
+    polarization := .ignore
+    pickups := [⟨1, .radius, 2, -1, 0⟩]
+    solves := [⟨3, 0⟩] }
+
+theorem demo_wf : Wf demoEnv demoLens := by
+  refine ⟨?_, Or.inr ⟨[⟨486, false, .nm⟩], ⟨588, true, .nm⟩, [⟨656, false, .nm⟩], rfl, ?_, rfl, ?_⟩, ?_⟩
+  · intro t ht
+    simp only [demoLens, List.mem_cons, List.mem_nil_iff, or_false] at ht
+    rcases ht with rfl | rfl | rfl | rfl <;>
+      simp [SurfRec.wf, GeomRec.wf, MatRec.wf, optWf, CoatRec.wf, demoGlass, demoEnv]
+  · intro w hw; simp only [List.mem_singleton] at hw; subst hw; rfl
+  · intro w hw; simp only [List.mem_singleton] at hw; subst hw; rfl
+  · intro b hb
+    simp only [demoLens, Option.some.injEq] at hb
+    subst hb
+    simp [SysAp.wf]
+
+theorem demo_no_image : ∀ s ∈ demoLens.surfaces, s.isImage = false := by
+  intro t ht
+  simp only [demoLens, List.mem_cons, List.mem_nil_iff, or_false] at ht
+  rcases ht with rfl | rfl | rfl | rfl <;> rfl
+
+theorem demo_clean : PlanesClean demoLens := by
+  intro t ht
+  simp only [demoLens, List.mem_cons, List.mem_nil_iff, or_false] at ht
+  rcases ht with rfl | rfl | rfl | rfl <;> rfl
+
+theorem demo_pickups_fixed : applyPickups true demoLens.surfaces demoLens.pickups = .ok demoLens.surfaces := by
+  rfl
+
+/-- the round trip of the tree, the dictionary identity and serialisability, all instantiated -/
+theorem demo_round_trip :
+    fromDict_code demoEnv (toDict_code demoLens) = .ok demoLens ∧
+    (fromDict_code demoEnv (toDict_code demoLens)).map toDict_code = .ok (toDict_code demoLens) ∧
+    (toDict_code demoLens).jsonOk = true ∧ SafeInv { demoLens with pickups := [], solves := [] } := by
+  have h1 := fromDict_toDict demoEnv demoLens demo_wf _ rfl demo_no_image demo_clean demo_pickups_fixed
+  refine ⟨h1, ?_, ?_, ?_⟩
+  · rw [h1]; rfl
+  · rw [jsonOk_toDict_code]; rfl
+  · exact safeInv_of_fresh _ (by rw [jsonOk_toDict_code]; rfl) rfl rfl
+
+/-- non-vacuity of `serialisable_after_edits_partial`: a fresh lens and a history of three safe edits
+(`set_radius`, a conic pickup, `update`) -/
+example :
+    (toDict_code (run true { demoLens with pickups := [], solves := [] }
+      [.setRadius 40 1, .pickupAdd ⟨1, .conic, 2, 1, 0⟩, .update []])).jsonOk = true :=
+  serialisable_after_edits_partial _ _ demo_round_trip.2.2.2 (by
+    intro e he
+    simp only [List.mem_cons, List.mem_nil_iff, or_false] at he
+    rcases he with rfl | rfl | rfl <;> rfl)
 
 end C19
